@@ -207,7 +207,16 @@ func normPaths(v any, psDir string) any {
 // finished without mrp having noticed, or still alive), the stale lock is
 // removed, and a new Pipestance is attached to the directory.
 func TestInterrupt(t *testing.T) {
-	interruptTest(t, "C05", []string{"queued", "dead-running", "dead-after-outs", "killed-with-error", "finished-unnoticed", "alive"})
+	interruptTest(t, "C05", []string{"queued", "dead-running", "dead-after-outs", "killed-with-error", "finished-unnoticed", "alive", "alive-after-outs"})
+}
+
+// TestInterruptOrder: C02 across restarts - the start-order invariants
+// (dependencies finished, split < chunks < join, preflights) are checked at
+// every job start of runs that are interrupted while jobs are in flight, in
+// particular jobs that are still alive and have written their outputs (a
+// split job its _stage_defs) but not yet their completion marker.
+func TestInterruptOrder(t *testing.T) {
+	interruptTest(t, "C02", []string{"alive-after-outs", "alive-after-outs", "alive", "finished-unnoticed", "dead-after-outs", "queued"})
 }
 
 // TestStaleAttempt: C11 - a job whose attempt was reset at a restart is still
@@ -325,6 +334,20 @@ func interruptTest(t *testing.T, PROP string, fateChoices []string) {
 				case "alive":
 					if !j.Started {
 						err = sim.StartWithPid(j, os.Getpid())
+					}
+					survivors = append(survivors, j)
+				case "alive-after-outs":
+					// still running (cluster job, or a local job that
+					// outlives mrp): outputs / stage defs are on disk, the
+					// completion marker is not
+					if !j.Started {
+						err = sim.StartWithPid(j, os.Getpid())
+					}
+					if err == nil {
+						var outs *jsonx.Obj
+						if outs, err = sim.Compute(j); err == nil {
+							err = sim.WriteOuts(j, outs)
+						}
 					}
 					survivors = append(survivors, j)
 				case "zombie":
@@ -538,6 +561,13 @@ func TestFaults(t *testing.T) {
 					if len(j.Stage.Outs) > 0 {
 						// (a stage without outputs is not asked for any)
 						kinds = append(kinds, "invalid-outs", "missing-key", "wrong-type")
+					}
+				case "chunk":
+					if len(j.Stage.Outs) > 0 || len(j.Stage.ChunkOuts) > 0 {
+						// a chunk (first, middle or last of its fork) that
+						// exits cleanly but leaves unreadable outputs: found
+						// when the join is prepared
+						kinds = append(kinds, "invalid-outs", "invalid-outs")
 					}
 				case "split":
 					kinds = append(kinds, "bad-stage-defs")
